@@ -189,3 +189,148 @@ def balanced_currents(rnd, names, scale=1.0):
     total = sum(Fraction(repr(v)) for v in vals)
     last = -float(total)
     return dict(zip(names, vals + [last]))
+
+
+# --------------------------------------------------------------------------------------
+# Engine-A physics scenarios (shared by C01, C02, C06, C10, C12, C13, C17, ...)
+# --------------------------------------------------------------------------------------
+def gen_current_spec(rnd, names, solve_time, cur_units, dynamic=None):
+    f = CUR_FACTOR[cur_units]
+    scale = rnd.choice([0.2, 1.0, 3.0]) * f
+    if dynamic is None:
+        dynamic = rnd.random() < 0.5
+    if not dynamic:
+        I = balanced_currents(rnd, names, scale)
+        if rnd.random() < 0.15:
+            return {"kind": "const_callable", "I": I}
+        return {"kind": "const", "I": I}
+    kind = rnd.choice(["pw", "pw", "ramp"])
+    if kind == "pw":
+        nseg = rnd.choice([2, 3, 4])
+        times = sorted(r3(rnd.uniform(0.05, 0.95) * solve_time) for _ in range(nseg - 1))
+        if rnd.random() < 0.3:
+            times[0] = 0.0  # a change on the very first step (after thermalisation too)
+        vals = [balanced_currents(rnd, names, scale) for _ in range(nseg)]
+        if nseg >= 3 and rnd.random() < 0.5:
+            vals[-1] = dict(vals[0])  # return to an earlier value (boundary-condition cache)
+        if rnd.random() < 0.3:
+            # one terminal switched to exactly zero; the others re-balanced
+            z = {k: 0.0 for k in names}
+            if len(names) > 2:
+                a = gen_amplitude(rnd, scale)
+                z[names[0]], z[names[1]] = a, -a
+            vals[rnd.randrange(nseg)] = z
+        return {"kind": "pw", "times": times, "values": vals}
+    return {
+        "kind": "ramp",
+        "I0": balanced_currents(rnd, names, scale),
+        "I1": balanced_currents(rnd, names, scale),
+        "tmin": r3(0.1 * solve_time),
+        "tmax": r3(0.8 * solve_time),
+    }
+
+
+def gen_field_spec(rnd, solve_time, field_units, kinds=("zero", "const", "ramp", "pw", "sin"), xi_um=0.5):
+    f = FIELD_FACTOR[field_units]
+    # field scale: a fraction of Bc2 = Phi0/(2 pi xi^2); Bc2(xi=0.5um) ~ 1.3 mT
+    bc2_mT = 2.0678e-15 / (2 * math.pi * (xi_um * 1e-6) ** 2) * 1e3
+    B = r3(rnd.choice([0.05, 0.2, 0.5]) * bc2_mT * f * rnd.choice([1, 1, -1]))
+    kind = rnd.choice(list(kinds))
+    if kind == "zero":
+        return {"kind": "zero"}
+    if kind == "const":
+        return {"kind": rnd.choice(["const", "const_param"]), "B": B}
+    if kind == "ramp":
+        return {"kind": "ramp", "B": B, "tmin": r3(rnd.choice([0.0, 0.2]) * solve_time), "tmax": r3(rnd.choice([0.6, 1.0, 3.0]) * solve_time), "initial": rnd.choice([0.0, 0.0, 1.0, -0.5]), "final": rnd.choice([1.0, 0.0, 2.0])}
+    if kind == "pw":
+        n = rnd.choice([2, 3, 4])
+        times = sorted(r3(rnd.uniform(0.05, 0.95) * solve_time) for _ in range(n - 1))
+        vals = [rnd.choice([0.0, 1.0, 0.5, -1.0, 0.3]) for _ in range(n)]
+        if n >= 3:
+            vals[-1] = vals[0]
+        return {"kind": "pw", "B": B, "times": times, "values": vals}
+    return {"kind": "sin", "B": B, "omega": r3(rnd.choice([0.5, 2.0, 6.0]) / solve_time), "phase": rnd.choice([0.0, 1.0]), "offset": rnd.choice([0.0, 0.5])}
+
+
+def gen_epsilon_spec(rnd, kinds=("none", "none", "const", "spatial", "scalar_spatial", "timedep")):
+    k = rnd.choice(list(kinds))
+    if k == "none":
+        return None
+    if k == "const":
+        return {"kind": "const", "v": rnd.choice([1.0, 0.5, 0.0, -0.5, -1.0])}
+    if k in ("spatial", "scalar_spatial"):
+        return {"kind": k, "amp": rnd.choice([0.3, 1.0, 1.5]), "k": [rnd.choice([0.5, 2.0]), rnd.choice([0.0, 1.0])], "base": rnd.choice([1.0, 0.5])}
+    return {"kind": "timedep", "amp": rnd.choice([0.2, 0.8]), "omega": rnd.choice([1.0, 10.0]), "base": rnd.choice([1.0, 0.7])}
+
+
+def gen_physics(rnd, **p):
+    """A full Engine-A scenario. ``p`` narrows the swarm:
+    n_terminals, screening, adaptive, therm, field_kinds, dyn_currents, eps_kinds,
+    steps=(lo, hi), dt_choices, terminal_psi, units(bool), refuse(prob), size"""
+    units = p.get("units", True)
+    lu = rnd.choice(UNIT_LEN) if units else "um"
+    fu = rnd.choice(UNIT_FIELD) if units else "mT"
+    cu = rnd.choice(UNIT_CUR) if units else "uA"
+    screening = p["screening"] if "screening" in p else (rnd.random() < 0.15)
+    n_term = p["n_terminals"] if "n_terminals" in p else rnd.choice([0, 2, 2, 3, 4])
+    dev = gen_device(
+        rnd,
+        size=p.get("size", "small"),
+        n_terminals=n_term,
+        n_probes=p.get("n_probes"),
+        n_holes=p.get("n_holes"),
+        length_units=lu,
+        gamma=p.get("gamma"),
+        screening=screening,
+    )
+    xi_um = dev["layer"]["xi"] / LEN_FACTOR[lu]
+    adaptive = p["adaptive"] if "adaptive" in p else (rnd.random() < 0.5)
+    dt_init = rnd.choice(p.get("dt_choices", [1e-4, 1e-3, 0.01, 0.01, 0.05, 0.2]))
+    lo, hi = p.get("steps", (3, 30))
+    steps = rnd.randint(lo, hi)
+    solve_time = r3(dt_init * steps * rnd.choice([1.0, 0.97, 1.0]))
+    therm = p["therm"] if "therm" in p else (rnd.random() < 0.2)
+    opts = base_options(
+        solve_time=solve_time,
+        skip_time=r3(dt_init * rnd.randint(1, 6)) if therm else 0.0,
+        dt_init=dt_init,
+        dt_max=r3(dt_init * rnd.choice([1.0, 2.0, 10.0, 100.0])) if adaptive else max(dt_init, 0.1),
+        adaptive=adaptive,
+        adaptive_window=rnd.choice([1, 2, 3, 5, 10]),
+        max_solve_retries=rnd.choice([0, 1, 3, 10]),
+        adaptive_time_step_multiplier=rnd.choice([0.25, 0.5, 0.1, 0.9]),
+        save_every=rnd.choice([1, 2, 5, 7, 100]),
+        field_units=fu,
+        current_units=cu,
+        include_screening=screening,
+    )
+    if "terminal_psi" in p:
+        opts["terminal_psi"] = p["terminal_psi"]
+    elif n_term and rnd.random() < 0.3:
+        opts["terminal_psi"] = rnd.choice([None, 0.0, 0.0, 1.0, 0.5, {"re": 0.3, "im": 0.4}])
+    if screening:
+        opts["screening_tolerance"] = rnd.choice([1e-2, 1e-3, 1e-4])
+        opts["screening_step_size"] = rnd.choice([0.1, 0.3, 1.0])
+        opts["screening_step_drag"] = rnd.choice([0.5, 0.9, 1.0])
+        opts["max_iterations_per_step"] = 1000
+    names = [t["name"] for t in dev["terminals"]]
+    currents = None
+    if names and rnd.random() < p.get("p_currents", 0.85):
+        currents = gen_current_spec(rnd, names, solve_time, cu, dynamic=p.get("dyn_currents"))
+    field = gen_field_spec(rnd, solve_time, fu, kinds=p.get("field_kinds", ("zero", "const", "ramp", "pw", "sin")), xi_um=xi_um)
+    eps = gen_epsilon_spec(rnd, kinds=p.get("eps_kinds", ("none", "none", "none", "const", "spatial", "scalar_spatial", "timedep")))
+    faults = []
+    if rnd.random() < p.get("refuse", 0.0) and adaptive:
+        nf = rnd.choice([1, 1, 2, 3])
+        for _ in range(nf):
+            faults.append({"kind": "refuse", "at": {"stage": "S", "step": rnd.randint(0, max(0, steps - 1)), "attempts": list(range(rnd.choice([1, 1, 2, 3]))), "iter": 0}})
+    return {
+        "physics": "real",
+        "device": dev,
+        "options": opts,
+        "drive": {"field": field, "currents": currents, "epsilon": eps},
+        "observer": {"output": None},
+        "env": {},
+        "faults": faults,
+        "meta": {"steps": steps},
+    }
